@@ -47,18 +47,18 @@
       evaluator (harness probe `internal_wiring/…`: pointer identity of every inner evaluator) and has one row per
       configuration of the optional fields (`[N1<N2]`: xPow2N1/xPow2InvN1 set, `[ConjugateInvariant]`: DomainSwitcher
       set, `[SkDebug]`).
-    * findings of these rows (harness keys; patches under /verif/fixes, not applied — the rows describe the code as it is):
-        - `mpckks.MaskedLinearTransformationProtocol.WithParams` drops `noise` (class `dropped`, listed by
-          `incomplete_rows_eq`): the re-targeted protocol cannot be re-targeted again (nil distribution → panic).
-          Key `C10/mpckks.MaskedLinearTransformationProtocol.WithParams/drops-noise`, fix C10-7 (row becomes `config`).
+    * findings of these rows, all fixed in /repo (the rows follow HEAD; the harness probes keep their keys):
+        - `mpckks.MaskedLinearTransformationProtocol.WithParams` dropped `noise` (class `dropped`, then listed by
+          `incomplete_rows_eq`): the re-targeted protocol could not be re-targeted again (nil distribution → panic).
+          Key `C10/mpckks.MaskedLinearTransformationProtocol.WithParams/drops-noise`; fixed: 62bef1b (C10-7), row now `config`.
         - `ringqp.UniformSampler.AtLevel` shares buffers / read pointers / PRNG with the receiver (class `nestedScratch`,
-          listed by `not_concurrentSafe_rows_eq`) although its comment calls it "a shallow copy".
-          Key `C10/ringqp.UniformSampler.AtLevel/shares-state-undocumented`, fix C10-9 (documentation only).
-        - `ringqp.UniformSampler.WithPRNG` panics on a sampler without Q part, which every other method supports.
-          Key `C10/ringqp.UniformSampler.WithPRNG/nil-samplerQ`, fix C10-8 (the row is for the Q+P configuration).
-        - not a copy defect, found on the way: `bootstrapping.Evaluator.BootstrapMany` panics when it has to pack two or
+          listed by `not_concurrentSafe_rows_eq`) while its comment called it "a shallow copy".
+          Key `C10/ringqp.UniformSampler.AtLevel/shares-state-undocumented`; fixed: 0eeaffe (C10-9, documentation).
+        - `ringqp.UniformSampler.WithPRNG` panicked on a sampler without Q part, which every other method supports.
+          Key `C10/ringqp.UniformSampler.WithPRNG/nil-samplerQ`; fixed: 68cd377 (C10-8; the row is for the Q+P configuration).
+        - not a copy defect, found on the way: `bootstrapping.Evaluator.BootstrapMany` panicked when it had to pack two or
           more ciphertexts above level 0 (the original and its copy alike).
-          Key `C10/bootstrapping.BootstrapMany/packing-above-level-0-panics`, fix C10-10.
+          Key `C10/bootstrapping.BootstrapMany/packing-above-level-0-panics`; fixed: 582ab46 (C10-10).
     * known finding kept: `rlwe.Encryptor.ShallowCopy` builds a fresh encryptor and therefore forgets a
       PRNG installed with `WithPRNG` (`C10/Encryptor.ShallowCopy/drops-WithPRNG`; in the table this is the
       `rng` class of `prng` and the `nested` samplers: by construction a shallow copy has fresh randomness).
@@ -190,9 +190,8 @@ example : lookup "ringqp.Ring.AtLevel" = some [("RingP", .nested), ("RingQ", .ne
 def incomplete_rows : List String := (table.filter fun (_, r) => !r.complete).map (·.1)
 
 theorem incomplete_rows_eq : incomplete_rows =
-    ["ring.Ring.AtLevel",   -- `level` is what AtLevel is meant to change
-     -- `noise` is dropped: a genuine defect (finding C10/mpckks.MaskedLinearTransformationProtocol.WithParams/drops-noise)
-     "mpckks.MaskedLinearTransformationProtocol.WithParams"] := by decide
+    ["ring.Ring.AtLevel"] := by decide   -- `level` is what AtLevel is meant to change
+    -- (before fix C10-7 also "mpckks.MaskedLinearTransformationProtocol.WithParams": `noise` was dropped)
 
 end Lattigo.Props.C10
 
